@@ -68,7 +68,23 @@ class C07(GenCheck):
             elif r < 0.35:
                 stmts.append(["set", ["v", rng.choice(locs)[0]], ["v", name]])
             elif r < 0.5:
-                stmts.append(["set", ["v", name], ["c", self.rand_const(rng, fmt)]])
+                c = self.rand_const(rng, fmt)
+                n_ = dsl.fmt_size(fmt)
+                q = rng.random()
+                if q < 0.15:
+                    # a constant wider than the variable: its low bytes are stored (in the variable's byte order) - preferably
+                    # into a multi-byte variable with an explicit byte order, with low bytes that differ from each other
+                    wide = [v for v in pvars if 1 < dsl.fmt_size(v[2]) < 8 and len(v[2]) > 1]
+                    if wide:
+                        name, p, fmt = rng.choice(wide)
+                        n_ = dsl.fmt_size(fmt)
+                        c = rng.choice([0x1234, 0x12345678, 0x0a0b0c0d, c]) % (1 << (8 * n_))
+                    if n_ < 8:
+                        c += rng.choice([1, 3, -1, -2, 0x10, 255]) << (8 * n_)
+                elif q < 0.3:
+                    # a decimal constant into an integer variable: its whole part is stored
+                    c = rng.choice([2.5, 7.25, 0.99999, 123.5, 1.0, 41.50001, 200.75])
+                stmts.append(["set", ["v", name], ["c", c]])
             elif r < 0.7:
                 stmts.append(["set", ["v", name], ["v", rng.choice(locs)[0]]])
             elif r < 0.85:
@@ -134,7 +150,7 @@ class C07(GenCheck):
             return f"(SSet {self.cloc(case, tgt)} (POp {'OAdd' if s[0] == 'iadd' else 'OSub'} {self.cloc(case, tgt)} {cz(s[2][1])}))"
         e = s[2]
         if e[0] == "c":
-            ce = f"(PConst {cz(e[1])})"
+            ce = f"(PConst {cz(int(e[1] // 1))})"
         elif e[0] == "r":
             # a register holds the constant it was loaded with: storing it is storing that constant
             ce = f"(PConst {cz(case['reginit'][e[2]] if e[2] in case['reginit'] else case['reginit'][str(e[2])])})"
@@ -197,7 +213,7 @@ class C07(GenCheck):
 
         def ev(x):
             if x[0] == "c":
-                return x[1]
+                return int(x[1] // 1)
             if x[0] == "r":
                 ri = case["reginit"]
                 return ri[x[2]] if x[2] in ri else ri[str(x[2])]
